@@ -183,6 +183,26 @@ func (q *RecQueue) ReleaseDelayed() int {
 	return len(d)
 }
 
+// ReleaseDue moves the parked items whose delay is at most max into the queue (logical time passes
+// by max); items parked for longer (a periodic resyncAfterSeconds request) stay parked.
+func (q *RecQueue) ReleaseDue(max time.Duration) int {
+	q.mu.Lock()
+	var due, keep []DelayedItem
+	for _, it := range q.delayed {
+		if it.Delay <= max {
+			due = append(due, it)
+		} else {
+			keep = append(keep, it)
+		}
+	}
+	q.delayed = keep
+	q.mu.Unlock()
+	for _, it := range due {
+		q.inner.Add(it.Key)
+	}
+	return len(due)
+}
+
 // DropDelayed forgets the parked items.
 func (q *RecQueue) DropDelayed() {
 	q.mu.Lock()
